@@ -183,6 +183,9 @@ def check_listing_complete(b, facts, res):
             if ls:
                 judge("filter closure", ls, mb.loc())
         if mb.kind == "closure" and mb.local_ty(0).startswith("std::option::Option<"):
+            for bi, t in mb.calls():
+                if t.dest is not None and t.dest.local == 0 and not t.dest.proj:
+                    judge("filter_map closure returning a call's Option", lits_of(mb, bi, facts), mb.loc(t.line))
             for blk in mb.blocks:
                 if blk.cleanup:
                     continue
